@@ -337,8 +337,28 @@ impl Ctx {
 
     /// quick case count -> this run's case count (thorough: x `factor`, divided over shards)
     pub fn cases(&self, quick: u32, factor: u32) -> u32 {
-        let total = if self.thorough() { quick.saturating_mul(factor) } else { quick };
+        let total = if self.thorough() { quick.saturating_mul(factor).saturating_mul(self.boost()) } else { quick };
         (total / self.nshards).max(1)
+    }
+
+    /// extra thorough-tier multiplier for properties whose cases are cheap, so that every thorough run
+    /// spends minutes, not seconds (measured on this 16-core box)
+    fn boost(&self) -> u32 {
+        match self.prop.as_str() {
+            "C02" => 4,
+            "C03" => 4,
+            "C04" => 20,
+            "C08" => 25,
+            "C09" => 15,
+            "C10" => 10,
+            "C12" => 20,
+            "C13" => 60,
+            "C15" => 5,
+            "C18" => 12,
+            "C19" => 10,
+            "C20" => 10,
+            _ => 1,
+        }
     }
 
     pub fn pick<T>(&self, quick: T, thorough: T) -> T {
